@@ -22,33 +22,42 @@ Proof. exact map_box_tight. Qed.
 Print Assumptions C12_rect_transform_tight.
 
 (* After Group::calculate_bounding_boxes each of the four object/stroke boxes of a (non-empty) group contains the
-   corresponding box of every child (group children: mapped by the child's transform); when the call succeeds the
+   corresponding box of every live child (group children: mapped by the child's transform; `live` = all children except
+   empty groups without filters, which both loops skip since ab43936); when the call succeeds the
    layer box is the union of the filter regions if the group has filters, else it contains every child's layer
    (stroke) box, and the absolute layer box is the layer box mapped by the group's absolute transform. *)
 Theorem C12_parent_contains_children : forall abs_ts filters prev cs g ok,
   calculate_bounding_boxes abs_ts filters prev cs = (g, ok) ->
-  cs <> [] -> (forall c, In c cs -> child_valid c = true) ->
-  (forall c, In c cs ->
+  live cs <> [] -> (forall c, In c (live cs) -> child_valid c = true) ->
+  (forall c, In c (live cs) ->
      contains (gb_obj g) (c_obj c) /\ contains (gb_abs g) (c_abs c) /\
      contains (gb_stroke g) (c_stroke c) /\ contains (gb_abs_stroke g) (c_abs_stroke c)) /\
   (ok = true ->
      match filters_bounding_box filters with
      | Some f => gb_layer g = f
-     | None => forall c l, In c cs -> c_layer c = Some l -> contains (gb_layer g) l
+     | None => forall c l, In c (live cs) -> c_layer c = Some l -> contains (gb_layer g) l
      end /\ nz_transform abs_ts (gb_layer g) = Some (gb_abs_layer g)).
 Proof. exact parent_contains_children. Qed.
 Print Assumptions C12_parent_contains_children.
 
 Theorem C12_object_bbox_contains : forall cs u c,
-  calculate_object_bbox cs = Some u -> In c cs -> contains u (c_obj c).
+  calculate_object_bbox cs = Some u -> In c (live cs) -> contains u (c_obj c).
 Proof. exact object_bbox_contains. Qed.
 Print Assumptions C12_object_bbox_contains.
+
+(* A child group without children and without filters has no painted content: since ab43936 both loops skip it (`live`),
+   and the boxes are exactly those of the group without that child. *)
+Theorem C12_empty_group_is_skipped : forall abs_ts filters prev l1 l2,
+  calculate_bounding_boxes abs_ts filters prev (l1 ++ CEmptyGroup :: l2) = calculate_bounding_boxes abs_ts filters prev (l1 ++ l2) /\
+  calculate_object_bbox (l1 ++ CEmptyGroup :: l2) = calculate_object_bbox (l1 ++ l2).
+Proof. exact empty_group_is_skipped. Qed.
+Print Assumptions C12_empty_group_is_skipped.
 
 (* Axis-aligned absolute transforms (no rotation / skew): the absolute box IS the object box mapped by the
    absolute transform.  Paths: definitional (Path::new, branch without skew = path_abs_box).  Groups: the union
    commutes with axis-aligned maps, and mapping through a child group composes. *)
 Theorem C12_abs_box_is_mapped_box : forall t cs uo ua, skewless t ->
-  (forall c, In c cs -> box_valid (c_obj c) = true /\ box_eq (c_abs c) (map_box t (c_obj c))) ->
+  (forall c, In c (live cs) -> box_valid (c_obj c) = true /\ box_eq (c_abs c) (map_box t (c_obj c))) ->
   union_of c_obj cs = Some uo -> union_of c_abs cs = Some ua -> box_eq ua (map_box t uo).
 Proof. exact abs_box_is_mapped_box_group. Qed.
 Print Assumptions C12_abs_box_is_mapped_box.
@@ -64,8 +73,9 @@ Theorem C12_abs_transform_product : forall n pabs,
 Proof. exact abs_transform_product_guarded. Qed.
 Print Assumptions C12_abs_transform_product.
 
-(* ... KNOWN class use_transform_twice (F14): a group made for `use` / nested `svg` whose element has its own
-   `transform` attribute gets abs = parent * ts * transform (or misses it on the clip wrapper).  Witness
+(* ... KNOWN class use_transform_twice (F14): a group made for a `use` / `symbol` element that has its own
+   `transform` attribute gets abs = parent * ts * transform (or misses it on the clip wrapper); nested `svg` elements
+   are fixed (fb5447a) and fall under the theorem above.  Witness
    structure/use/transform-attribute-1.svg: ts = translate(20 20), abs = translate(40 40). *)
 Theorem C12_known_use_transform_twice_refuted :
   exists n, has_use_ts n = true /\ product_ok ts_identity (thread ts_identity n) = false.
@@ -119,6 +129,12 @@ Proof. vm_compute. reflexivity. Qed.
 Example C12_ex_background : product_ok ts_identity (thread ts_identity
   (TGroup GK_Plain (from_translate 100 100) ts_identity [TLeaf; TLeaf])) = true.
 Proof. vm_compute. reflexivity. Qed.
+(* nested svg with transform T, viewport translate/scale V and clip wrapper (fb5447a): group(T) > clip wrapper(identity) > group(V) *)
+Example C12_ex_nested_svg :
+  let n := TGroup GK_Plain (from_translate 7 3) ts_identity
+             [TGroup GK_ClipWrap ts_identity ts_identity [TGroup GK_Plain (from_row 2 0 0 2 20 30) ts_identity [TLeaf]]] in
+  has_use_ts n = false /\ product_ok (from_translate 10 5) (thread (from_translate 10 5) n) = true.
+Proof. vm_compute. split; reflexivity. Qed.
 Example C12_ex_product : product_ok ts_identity (thread ts_identity
   (TGroup GK_Plain (from_translate 3 4) ts_identity [TGroup GK_Plain (from_scale 2 2) ts_identity [TLeaf]; TLeaf])) = true.
 Proof. vm_compute. reflexivity. Qed.
